@@ -26,6 +26,7 @@
   cross-section of molecule `g` and whether `rayleigh_sigma_from_name` knows it, `mix g` its mixing-ratio profile.
 -/
 import TaurexModel.Gen.SrcC03
+import TaurexModel.Gen.SrcC19
 import TaurexModel.Sigma
 import TaurexModel.Transmission
 import TaurexModel.Geometry
@@ -529,6 +530,44 @@ theorem src_absorption_published_shapes {ι : Type} (nlayers nW : Nat) (T P : Na
     (opacity : ι → α → α → Nat → α) (mix : ι → Nat → α) (gases : List ι) :
     Gen.SrcC03.absorption_prepare_each_published_shapes nW P T gases mix nlayers opacity :=
   src_absorption_prepare_each_shapes nlayers nW T P opacity mix gases
+
+section
+variable [OfNat α 4] [OfNat α 5] [OfNat α 10000]
+
+/-- the cloud deck and the two hazes (one component each): what each suspended `prepare_each` has published in
+    `self.sigma_xsec` at its yield IS the yielded component.  (On the pinned tree `SimpleCloudsContribution.prepare_each` stored
+    its deck in `self._contrib` only, so the component route integrated the `sigma_xsec` of the last `prepare()`; repaired in
+    /repo — DESIGN §6 — and since then this statement is translatable at all.) -/
+theorem src_clouds_published (nL nW : Nat) (P : Nat → α) (p0 inf : α) :
+    Gen.SrcC03.clouds_prepare_each_published nW P inf nL p0 = Gen.SrcC03.clouds_prepare_each nW P inf nL p0 := rfl
+
+theorem src_lee_published (n nW : Nat) (P wnv : Nat → α) (bottomRaw topRaw pi a q mix c1 c2 : α) (pw : α → α → α) :
+    Gen.SrcC03.lee_prepare_each_published wnv nW P (a := a) (bottomRaw := bottomRaw) (c0p2 := c1) (c1em06 := c2)
+        (mix := mix) (nL := n) (pi := pi) (powf := pw) (q := q) (topRaw := topRaw)
+      = Gen.SrcC03.lee_prepare_each wnv nW P (a := a) (bottomRaw := bottomRaw) (c0p2 := c1) (c1em06 := c2)
+        (mix := mix) (nL := n) (pi := pi) (powf := pw) (q := q) (topRaw := topRaw) := rfl
+
+theorem src_flat_published (n nW : Nat) (plev : Nat → α) (bottomRaw topRaw mix : α) :
+    Gen.SrcC03.flat_prepare_each_published nW bottomRaw mix n plev topRaw
+      = Gen.SrcC03.flat_prepare_each nW bottomRaw mix n plev topRaw := rfl
+
+/-- … and these are the definitions the C19 ties are about (the same source text, regenerated for both properties): the
+    theorems of `Props/C19Src.lean` (`src_clouds_prepare_each`, `src_lee_prepare_each`, `src_flat_prepare_each`: equal to
+    `Haze.cloudSigma` / `leeSigma` / `flatSigma`) therefore describe the published components too -/
+theorem src_clouds_same_as_c19 (nL nW : Nat) (P : Nat → α) (p0 inf : α) :
+    Gen.SrcC03.clouds_prepare_each nW P inf nL p0 = Gen.SrcC19.clouds_prepare_each nW P inf nL p0 := rfl
+
+theorem src_lee_same_as_c19 (n nW : Nat) (P wnv : Nat → α) (bottomRaw topRaw pi a q mix c1 c2 : α) (pw : α → α → α) :
+    Gen.SrcC03.lee_prepare_each wnv nW P (a := a) (bottomRaw := bottomRaw) (c0p2 := c1) (c1em06 := c2)
+        (mix := mix) (nL := n) (pi := pi) (powf := pw) (q := q) (topRaw := topRaw)
+      = Gen.SrcC19.lee_prepare_each wnv nW P (a := a) (bottomRaw := bottomRaw) (c0p2 := c1) (c1em06 := c2)
+        (mix := mix) (nL := n) (pi := pi) (powf := pw) (q := q) (topRaw := topRaw) := rfl
+
+theorem src_flat_same_as_c19 (n nW : Nat) (plev : Nat → α) (bottomRaw topRaw mix : α) :
+    Gen.SrcC03.flat_prepare_each nW bottomRaw mix n plev topRaw
+      = Gen.SrcC19.flat_prepare_each nW bottomRaw mix n plev topRaw := rfl
+
+end
 
 /-- `SimpleForwardModel.model_full_contrib()` (no `wngrid`): the native grid, and the dict that holds, under `contrib.name`
     (read before the generator is created), one record per element of `contrib.prepare_each(…)`: the yielded name and what
